@@ -582,6 +582,37 @@ func Run(c *engine.Ctx) {
 			"add-node+edge": func(nl *sbom.NodeList) {
 				_ = nl.RelateNodeAtID(&sbom.Node{Id: "d", Name: "n-d"}, "b", sbom.Edge_contains)
 			},
+			// edits that keep the number of nodes: a node replaced by another one that an edge leads to, a node renamed
+			// in place, a node object replaced, two identifiers swapped
+			"replace c by zz (remove, add), edge b->zz": func(nl *sbom.NodeList) {
+				nl.RemoveNodes([]string{"c"})
+				nl.AddNode(&sbom.Node{Id: "zz", Name: "n-zz"})
+				nl.AddEdge(&sbom.Edge{From: "b", Type: sbom.Edge_contains, To: []string{"zz"}})
+			},
+			"rename c to zz in place, edge a->zz": func(nl *sbom.NodeList) {
+				for _, n := range nl.Nodes {
+					if n.Id == "c" {
+						n.Id, n.Name = "zz", "n-zz"
+					}
+				}
+				nl.AddEdge(&sbom.Edge{From: "a", Type: sbom.Edge_dependsOn, To: []string{"zz"}})
+			},
+			"replace the last node object by yy, edge b->yy": func(nl *sbom.NodeList) {
+				if n := len(nl.Nodes); n > 0 {
+					nl.Nodes[n-1] = &sbom.Node{Id: "yy", Name: "n-yy"}
+					nl.AddEdge(&sbom.Edge{From: "b", Type: sbom.Edge_contains, To: []string{"yy"}})
+				}
+			},
+			"swap the identifiers of b and c": func(nl *sbom.NodeList) {
+				for _, n := range nl.Nodes {
+					switch n.Id {
+					case "b":
+						n.Id, n.Name = "c", "n-c"
+					case "c":
+						n.Id, n.Name = "b", "n-b"
+					}
+				}
+			},
 		}
 		var mn []string
 		for k := range muts {
